@@ -72,6 +72,10 @@ func (e Event) Class() string {
 	case "connect", "peerdial":
 		return fmt.Sprintf("%s(%s,%s)", e.K, e.C, strings.Join(e.Peers, "+"))
 	case "cbind":
+		if e.Rule == "control" {
+			return fmt.Sprintf("cbind-on-control-channel(%s,conn=%d of %s)", e.C, e.N, strings.Join(e.Peers, "+"))
+		}
+
 		return fmt.Sprintf("cbind(%s,conn=%d of %s,as=%s)", e.C, e.N, strings.Join(e.Peers, "+"), e.As)
 	case "bytes":
 		return fmt.Sprintf("bytes(%s,conn=%d,%s,seg=%d)", e.C, e.N, e.Rule, e.L)
